@@ -5,9 +5,12 @@ import Tahoe.StorageClient.Lemmas
 C33 — Grid-manager certificates grant permission only when valid.
 
 Statements are about `Tahoe.GridManager.verifier`, the model of
-`grid_manager.create_grid_manager_verifier` (tied to the code by `harness/props/c33.py`).
+`grid_manager.create_grid_manager_verifier`, and about `Tahoe.StorageClient.verdict` / `serversAtA`,
+the broker's use of it (`_make_storage_server` → `upload_permitted()` → `get_servers_for_psi`);
+10 theorems, tied to the code by `harness/props/c33.py` (driver ops `gmv` and `offer`).
 Ed25519 enters as the parameter `verify` and, where needed, the explicit hypothesis
-`Unforgeable pub sign verify` (instance: `symVerify_unforgeable`).
+`Unforgeable pub sign verify` (instance: `symVerify_unforgeable`).  No defect of /repo is open for
+this property.
 -/
 /-!
 ## Coverage of the statement
